@@ -400,7 +400,7 @@ func genCase(r *hx.Rand, tier string) *caseT {
 		k.Head = true
 	}
 	if !simple && r.Chance(1, 8) {
-		k.Wrap = hx.Pick(r, []string{"outer-noflush", "outer-noflush", "outer-flush", "inner-noflush", "inner-flush"})
+		k.Wrap = hx.Pick(r, []string{"outer-noflush", "outer-noflush", "outer-flush", "inner-noflush", "inner-flush", "outer-lazyheader", "outer-lazyheader"})
 	}
 	pn := -1
 	if !k.Head && r.Chance(1, 14) {
@@ -620,6 +620,10 @@ func fixedCases() []*caseT {
 	gz := sp("gzip")
 	ct := opT{K: "H", Key: "Content-Type", Vals: []string{"text/plain"}}
 	return []*caseT{
+		// a writer in front that hands out a private header map until the response starts (the timeout middleware's shape):
+		// Early Hints first, then a compressed body; a trailer set between the handler's WriteHeader and the deciding write
+		{Path: "/p", AE: gz, Wrap: "outer-lazyheader", Prog: []opT{{K: "H", Key: "Link", Vals: []string{"</s.css>; rel=preload"}}, {K: "W", Code: 103}, ct, {K: "B", Data: []byte("hello hello hello hello hello hello")}}},
+		{Path: "/p", AE: gz, Wrap: "outer-lazyheader", Opt: optT{MinSize: 64}, Prog: []opT{ct, {K: "H", Key: "Trailer", Vals: []string{"X-T"}}, {K: "W", Code: 200}, {K: "H", Key: "X-T", Vals: []string{"late"}}, {K: "B", Data: bytes.Repeat([]byte("z"), 100)}}},
 		// K15r: a middleware in front commits the response before the compression middleware runs
 		{Path: "/p", AE: gz, PreOp: &opT{K: "W", Code: 201}, Prog: []opT{ct, {K: "B", Data: []byte("hello hello hello hello hello hello")}}},
 		{Path: "/p", AE: gz, PreOp: &opT{K: "B", Data: []byte("prefix:")}, Prog: []opT{ct, {K: "B", Data: []byte("hello hello hello hello hello hello")}}},
